@@ -15,8 +15,8 @@ REPO = "/repo"
 OUTV = VERIF  # where seeded/ results are stored
 if os.environ.get("SEED_SCRATCH"):
     # run against the scratch copies made by tools/scratch.sh (leaves /repo alone)
-    VERIF = "/tmp/vscratch"
-    REPO = "/tmp/rscratch"
+    VERIF = "/tmp/vscratch" + os.environ.get("SCRATCH_SUFFIX", "")
+    REPO = "/tmp/rscratch" + os.environ.get("SCRATCH_SUFFIX", "")
     os.environ["TZSIM_REPO"] = REPO
 
 
